@@ -504,6 +504,7 @@ func main() {
 		g.do("line", append([]string{"46", "0"}, a...)...)
 		g.do("line", append([]string{"46", "0"}, b...)...)
 	}
+	stdlibOracle(r, rng)
 	for v := 0; v < 256; v++ {
 		x := byte(v)
 		y := rng.Byte()
@@ -678,4 +679,36 @@ func longestZeroRun(b []byte) int {
 		}
 	}
 	return best
+}
+
+// stdlibOracle: Go-side comparison of the scalar appenders with the standard library itself
+// (independent of the Coq side): all 65536 uint16 in decimal and hex, all 256 bytes in MAC / hex /
+// dotted-quad position, boundary uint32.
+func stdlibOracle(r *lib.Run, rng *lib.Rand) {
+	check := func(what, got, want, replay string) {
+		if got != want {
+			r.Viol("c20-stdlib-oracle-"+what, fmt.Sprintf("%s: fastlog %q, standard library %q", what, got, want), replay)
+		}
+		r.Stat("oracle."+what, 1)
+	}
+	for v := 0; v < 65536; v++ {
+		check("Uint16", newLine('.', 0).Uint16("a", uint16(v)).ToString(), " a="+strconv.FormatUint(uint64(v), 10), "line 46 0 u16:61:"+itoa(v))
+		check("Uint16Hex", newLine('.', 0).Uint16Hex("a", uint16(v)).ToString(), fmt.Sprintf(" a=0x%04x", v), "line 46 0 x16:61:"+itoa(v))
+	}
+	for v := 0; v < 256; v++ {
+		x, y := byte(v), rng.Byte()
+		check("Uint8", newLine('.', 0).Uint8("a", x).ToString(), " a="+strconv.Itoa(v), "line 46 0 u8:61:"+itoa(v))
+		check("Uint8Hex", newLine('.', 0).Uint8Hex("a", x).ToString(), fmt.Sprintf(" a=0x%02x", v), "line 46 0 x8:61:"+itoa(v))
+		m := net.HardwareAddr{x, y, x, y, x, y}
+		check("MAC", newLine('.', 0).MAC("a", m).ToString(), " a="+m.String(), "line 46 0 mac:61:"+lib.Hex(m))
+		ip := net.IP{x, y, y, x}
+		check("IPSlice4", newLine('.', 0).IPSlice("a", ip).ToString(), " a="+ip.String(), "line 46 0 ips:61:"+lib.Hex(ip))
+	}
+	for _, v := range u32Vals {
+		check("Uint32", newLine('.', 0).Uint32("a", v).ToString(), " a="+strconv.FormatUint(uint64(v), 10), fmt.Sprintf("line 46 0 u32:61:%d", v))
+	}
+	for i := 0; i < 20000; i++ {
+		v := uint32(rng.U64()) >> uint(rng.Intn(32))
+		check("Uint32", newLine('.', 0).Uint32("a", v).ToString(), " a="+strconv.FormatUint(uint64(v), 10), fmt.Sprintf("line 46 0 u32:61:%d", v))
+	}
 }
